@@ -337,6 +337,7 @@ func genC17(rt *rapid.T, fam, op, form, mode string, same, iter bool) *C17Case {
 
 func TestC17(t *testing.T) {
 	n := nCases(4, 60)
+	c17FloatCells(t)
 	for _, op := range arithOps {
 		for _, form := range []string{"TT", "TS", "ST"} {
 			for _, mode := range []string{"safe", "unsafe", "reuse", "incr"} {
@@ -348,6 +349,18 @@ func TestC17(t *testing.T) {
 					cell(t, "C17", "C17.xtype", fmt.Sprintf("arith/%s/%s/%s/iter=%v", op, form, mode, iter), n, func(rt *rapid.T) Case {
 						return genC17(rt, "arith", op, form, mode, false, iter)
 					})
+					if !iter {
+						// operands with exactly one element: every type's kernels have a branch of their own for them
+						cell(t, "C17", "C17.xtype", fmt.Sprintf("arith/%s/%s/%s/one-element", op, form, mode), nCases(2, 30), func(rt *rapid.T) Case {
+							c := genC17(rt, "arith", op, form, mode, false, false)
+							c.Shape = rapid.SampledFrom([][]int{{1}, {1, 1}, {1, 1, 1}}).Draw(rt, "shape1")
+							c.A, c.Dst = c.A[:1], c.Dst[:1]
+							if len(c.B) > 0 {
+								c.B = c.B[:1]
+							}
+							return c
+						})
+					}
 				}
 			}
 		}
